@@ -2,25 +2,70 @@
 (* Vector mode over WasmNum: every (type, operator, operands) of the chosen   *)
 (* operand set; TLC evaluates the reference and emits the specified outcome.  *)
 EXTENDS WasmNum, Json
-CONSTANTS Full, Emit, Widths
+CONSTANTS Full, Emit, Widths, MemAddrs
 VARIABLES case, done
+
+\* ---- memory: store then load at the same effective address (little endian, truncation,
+\* sign / zero extension), and bounds of single loads near the end of a one-page memory ----
+StoreOps == {<<"i32.store", 32, 4>>, <<"i32.store8", 32, 1>>, <<"i32.store16", 32, 2>>,
+             <<"i64.store", 64, 8>>, <<"i64.store8", 64, 1>>, <<"i64.store16", 64, 2>>, <<"i64.store32", 64, 4>>}
+LoadOps == {<<"i32.load", 32, 4, "u">>, <<"i32.load8_s", 32, 1, "s">>, <<"i32.load8_u", 32, 1, "u">>,
+            <<"i32.load16_s", 32, 2, "s">>, <<"i32.load16_u", 32, 2, "u">>,
+            <<"i64.load", 64, 8, "u">>, <<"i64.load8_s", 64, 1, "s">>, <<"i64.load8_u", 64, 1, "u">>,
+            <<"i64.load16_s", 64, 2, "s">>, <<"i64.load16_u", 64, 2, "u">>, <<"i64.load32_s", 64, 4, "s">>, <<"i64.load32_u", 64, 4, "u">>}
+MemVals(W) == { Zero(W), FromInt(-1, W), MinS(W), MaxS(W), FromInt(128, W), FromInt(-129, W), FromInt(32768, W), FromInt(-32769, W),
+                FromInt(305419896, W), Add(Shl(One(W), W - 1), FromInt(2147483647, W)) }
+\* the 16 bytes at the effective address were zero; the store overwrites the first n of them
+StoreLoad(st, ld, v) ==
+  LET region == [i \in 1..16 |-> IF i <= st[3] THEN v[i] ELSE 0]
+      raw == SubSeq(region, 1, ld[3])
+  IN IF ld[4] = "s" THEN SExt(raw, ld[2]) ELSE ZExt(raw, ld[2])
+PageBytes == 65536
+MemCases == { <<"mem", st, ld, v, addr, off>> : st \in StoreOps, ld \in LoadOps, v \in UNION {MemVals(32), MemVals(64)},
+                                               addr \in MemAddrs, off \in {0, 4} }
+BoundCases == { <<"ldb", ld, ld, Zero(32), addr, off>> : ld \in LoadOps, addr \in {65535, 65536, 65532, 65528, 65529, 65533, 1073741824}, off \in {0, 1} }
+\* immediates at the edges of the signed LEB128 groups
+LebEdges(W) == UNION { { FromInt(63, W), FromInt(64, W), FromInt(-64, W), FromInt(-65, W), FromInt(8191, W), FromInt(8192, W),
+                         FromInt(-8192, W), FromInt(-8193, W), FromInt(1048575, W), FromInt(1048576, W), FromInt(-1048577, W),
+                         FromInt(134217727, W), FromInt(134217728, W), FromInt(-134217729, W) } }
+\* index-space cases: a module with k entries in front of the one that is used; what the probe
+\* function returns is fixed by the rendering (harness) and stated here:
+\*   blocktype: block (result i32 i32) 7 9 end add            -> 16
+\*   call:      the function behind k padding functions       -> 3000 + k
+\*   local:     local number k (named), set to 1000 + k        -> 1000 + k
+\*   global:    the global behind k padding globals            -> 2000 + k
+IdxKs == (58..70) \cup (122..134) \cup {0, 1, 2, 200}
+IdxVal(fam, k) == CASE fam = "blocktype" -> 16 [] fam = "call" -> 3000 + k [] fam = "local" -> 1000 + k [] fam = "global" -> 2000 + k
 Vals(W) == IF Full THEN Boundary(W) ELSE Small(W)
 Cases == UNION { { <<"bin", W, op, a, b>> : op \in BinOps \cup RelOps, a \in Vals(W), b \in Vals(W) }
                  \cup { <<"un", W, op, a, a>> : op \in UnOps(W), a \in Boundary(W) } : W \in Widths }
          \cup { <<"conv", 64, "i32.wrap_i64", a, a>> : a \in Boundary(64) }
          \cup { <<"conv", 32, op, a, a>> : op \in {"i64.extend_i32_s", "i64.extend_i32_u"}, a \in Boundary(32) }
+         \cup { c \in MemCases : Width(c[4]) = c[2][2] }
+         \cup BoundCases
+         \cup UNION { { <<"const", W, "const", v, v>> : v \in Boundary(W) \cup LebEdges(W) } : W \in Widths }
+         \cup { <<"idx", 32, fam, FromInt(k, 32), FromInt(k, 32)>> : fam \in {"blocktype", "call", "local", "global"}, k \in IdxKs }
 Init == case \in Cases /\ done = FALSE
-Result(c) == CASE c[1] = "bin" -> (IF c[3] \in BinOps THEN Bin(c[3], c[4], c[5]) ELSE Rel(c[3], c[4], c[5]))
+Result(c) == CASE c[1] = "const" -> c[4]
+               [] c[1] = "idx" -> FromInt(IdxVal(c[3], ToNat(c[4])), 32)
+               [] c[1] = "bin" -> (IF c[3] \in BinOps THEN Bin(c[3], c[4], c[5]) ELSE Rel(c[3], c[4], c[5]))
                [] c[1] = "un" -> Un(c[3], c[4])
                [] c[1] = "conv" -> Conv(c[3], c[4])
 Step == /\ ~done /\ done' = TRUE /\ UNCHANGED case
-        /\ LET r == Result(case) IN
-           Emit => PrintT(<<"T", ToJson([kind |-> case[1], w |-> case[2], op |-> case[3], a |-> case[4], b |-> case[5],
-                                         trap |-> IF IsTrap(r) THEN r[2] ELSE "", r |-> IF IsTrap(r) THEN << >> ELSE r])>>)
+        /\ IF case[1] \in {"mem", "ldb"}
+           THEN LET oob == case[5] + case[6] + (IF case[1] = "mem" THEN 16 ELSE case[3][3]) > PageBytes
+                    r == IF oob THEN Trap("out of bounds memory access")
+                         ELSE IF case[1] = "mem" THEN StoreLoad(case[2], case[3], case[4]) ELSE Zero(case[3][2])
+                IN Emit => PrintT(<<"T", ToJson([kind |-> case[1], w |-> case[3][2], op |-> case[2][1], op2 |-> case[3][1], a |-> case[4],
+                                                 b |-> case[4], addr |-> case[5], off |-> case[6],
+                                                 trap |-> IF IsTrap(r) THEN r[2] ELSE "", r |-> IF IsTrap(r) THEN << >> ELSE r])>>)
+           ELSE LET r == Result(case) IN
+                Emit => PrintT(<<"T", ToJson([kind |-> case[1], w |-> case[2], op |-> case[3], op2 |-> "", a |-> case[4], b |-> case[5], addr |-> 0, off |-> 0,
+                                              trap |-> IF IsTrap(r) THEN r[2] ELSE "", r |-> IF IsTrap(r) THEN << >> ELSE r])>>)
 Next == Step
 \* algebraic laws of the reference itself, on every case
 Laws == done =>
-  (case[1] = "bin" /\ case[5] # Zero(case[2]) =>
+  (case[1] = "bin" /\ case[3] \in BinOps /\ case[5] # Zero(case[2]) =>
      LET a == case[4] b == case[5] IN
      /\ Add(Mul(DivU(a, b), b), RemU(a, b)) = a
      /\ (~(a = MinS(case[2]) /\ b = AllOnes(case[2])) => Add(Mul(DivS(a, b), b), RemS(a, b)) = a)
